@@ -68,7 +68,7 @@ pub fn domain() -> Vec<Val> {
 }
 
 fn hash_of<X: Hash + ?Sized>(x: &X) -> u64 {
-    let mut h = std::collections::hash_map::DefaultHasher::new();
+    let mut h = crate::util::CallHasher::new();
     x.hash(&mut h);
     h.finish()
 }
